@@ -105,6 +105,8 @@ def make_hooks(plan):
             elif exc == "abort":
                 context.abort(reason="hook #%d aborts the run" % k)
             elif exc:
+                if exc.endswith("0"):
+                    raise _EXC[exc[:-1]]()      # without any message (a bare `assert cond` / `raise X()`)
                 raise _EXC[exc]("hook fault #%d in %s" % (k, name))
         hook.__name__ = name
         if plan.capture_hooks and name not in ("before_all", "after_all"):
